@@ -18,8 +18,8 @@ ASSUMPTIONS = ["the argument -> path table below was written from the builders' 
                "an option the builders expose takes the builder's documented (signature) default when unspecified; options they do not expose take the schema default",
                "an augmentation counts as enabled when its probability is > 0 and, for the affine ones, its parameter is non-neutral (rotation != 0, scale != (1,1), translation > 0)"]
 SHARDS = {"quick": 4, "thorough": 16}
-N_RANDOM = {"quick": 200, "thorough": 6000}
-BUDGET = {"quick": 110, "thorough": 1200}
+N_RANDOM = {"quick": 200, "thorough": 40000}
+BUDGET = {"quick": 110, "thorough": 600}
 TIMEOUT = {"quick": 600, "thorough": 3000}
 SELF_SHARDED = True
 
